@@ -40,7 +40,8 @@ ASSUMPTIONS = [
     'labels written by calculate_viability_and_necessity are adopted outside the C08 check',
     'child / parent / reached / entry lists are compared as multisets of ids',
     'operations across graphs (a node of one graph handed to another), removing a node twice, '
-    'explicit ids on nodes that already carry one, and unknown node ids in add_attacker are unspecified and not generated',
+    'and nodes / attackers that carry an id from another graph are unspecified and not generated (a node or attacker '
+    'of the same graph offered again is generated: refused without change, or carried out consistently)',
 ]
 
 KEY_KIND = {'C09': ('remove_node', 'regenerate', 'add_node', 'remove_attacker'),
@@ -522,10 +523,19 @@ class GraphWorld(BaseWorld):
             return None
         if len(s.ref.order) >= 60:
             return None
+        ids = sorted(s.ref.ids())
+        if s.ref.order and rng.random() < 0.08:
+            # a node that already is in this graph is offered again: without an id, under
+            # a free id, under the id of another node
+            h = rng.choice(s.ref.order)
+            others = [i for i in ids if i != s.ref.nodes[h].id]
+            how = rng.choice(['none', 'free', 'other']) if others else rng.choice(['none', 'free'])
+            nid = {'none': None, 'free': (max(ids) if ids else 0) + rng.choice([1, 4]),
+                   'other': rng.choice(others) if others else None}[how]
+            return {'op': 'readd_node', 'g': gi, 'n': h, 'node_id': nid}
         d = self._rand_node_spec(rng)
         nid = None
         r = rng.random()
-        ids = sorted(s.ref.ids())
         if r < 0.25:
             nid = rng.choice([0, 5, 9, 17, 40, 100])
         elif r < 0.35 and s.ref.removed_ids:
@@ -881,6 +891,30 @@ class GraphWorld(BaseWorld):
         self._invalidate_surfaces(s)
         self.check_all(where, only=op['g'])
         return 'ok'
+
+    def do_readd_node(self, op):
+        """add_node with a node that already is part of this graph: refused without any
+        change, or carried out consistently (one entry, one id, lookups agree)."""
+        s = self.slot(op['g'])
+        h = op['n']
+        if h not in s.nmap:
+            raise Unresolvable()
+        node, rn = s.nmap[h], s.ref.nodes[h]
+        nid = op.get('node_id')
+        where = f'add_node(<node {rn.id} of this graph>, node_id={nid})'
+        o = call(s.g.add_node, node) if nid is None else call(s.g.add_node, node, node_id=nid)
+        self.count('fault:node_offered_again')
+        if o.raised:
+            if node.id != rn.id:
+                self.fail('C09.index', f'{where} was refused ({o.exc!r}) but the node now carries '
+                                       f'id {node.id!r} instead of {rn.id}')
+        else:
+            if nid is not None and nid in s.ref.ids() and nid != rn.id:
+                self.fail('C09.index', f'{where}: id in use was accepted')
+            rn.id = node.id
+            self._touch(s)
+        self.check_all(where, only=op['g'])
+        return 'refused' if o.raised else 'ok'
 
     def do_link(self, op):
         s = self.slot(op['g'])
